@@ -122,3 +122,14 @@ def canon(obj: Any) -> str:
 
 def digest(obj: Any) -> str:
     return hashlib.sha256(canon(obj).encode()).hexdigest()[:16]
+
+
+def pick(options):
+    """Like st.sampled_from, but without Hypothesis's heavy bias towards the
+    first elements in short runs: a wide integer is drawn and reduced modulo
+    the number of options (still shrinks towards options[0])"""
+
+    from hypothesis import strategies as st
+
+    options = list(options)
+    return st.integers(0, 2 ** 32 - 1).map(lambda i: options[i % len(options)])
